@@ -74,6 +74,10 @@ class ULPIRegisterWindow(Elaboratable):
         self.address       = Signal(6)
         self.done          = Signal()
 
+        # True iff the PHY is currently turning the bus around for / presenting register read data;
+        # i.e. the bytes it drives with NXT low are not RxCmds.
+        self.read_data_phase = Signal()
+
         self.read_request  = Signal()
         self.read_data     = Signal(8)
 
@@ -98,6 +102,7 @@ class ULPIRegisterWindow(Elaboratable):
 
             # We're busy whenever we're not IDLE; indicate so.
             m.d.comb += self.busy.eq(~fsm.ongoing('IDLE'))
+            m.d.comb += self.read_data_phase.eq(fsm.ongoing('READ_TURNAROUND') | fsm.ongoing('READ_COMPLETE'))
 
             # IDLE: wait for a request to be made
             with m.State('IDLE'):
@@ -877,7 +882,9 @@ class UTMITranslator(Elaboratable):
 
             # Connect our data inputs to the event decoder.
             # Note that the event decoder is purely passive.
-            rxevent_decoder.register_operation_in_progress.eq(register_window.busy),
+            # Only register *read data* can be mistaken for an RxCmd; RxCmds that arrive while a register
+            # operation is merely pending (or has been interrupted by the PHY) must still be decoded.
+            rxevent_decoder.register_operation_in_progress.eq(register_window.read_data_phase),
             self.last_rx_command          .eq(rxevent_decoder.last_rx_command),
 
             # Connect our inputs to our transmit translator.
